@@ -1,11 +1,11 @@
 SPECIFICATION Spec
 CONSTANTS
-  Nodes = {1, 2, 3, 4, 5}
+  Nodes = {1, 2, 3, 4}
   Ideal = 2
   MaxCommits = 2
-  Crashes = TRUE
+  Crashes = FALSE
   WriteFailures = FALSE
-  Uncache = "walk"
+  Uncache = "prefix"
   Dedup = FALSE
   Order = "post"
 INVARIANTS TypeOK Closed DurableKept NothingLost
